@@ -181,6 +181,13 @@ Section Lts.
         match w_validate (wo_writer o) with
         | Some code => Some (PDone (OVal (inr code)), w, ENone)
         | None =>
+            (* WithGenIDIfAbsent and an empty id: in THIS transition system the rng of the call offers
+               no candidate (the reference is replayed with cands = [] too), so GenerateUniqueId gives
+               up: Aborted from the first get, nothing read, nothing written.  A call whose rng does
+               offer candidates is a call of Conc/GenLts.v, which resolves the id at this step and
+               continues as the Update of the resolved id. *)
+            if String.eqb (apply_id id0) "" && wo_gen_id o then Some (PDone (OVal (inr 10)), w, ENone)
+            else
             match c_get_fn o (apply_id id0) false (c_items (w_c w)) with
             | (inr code, _) => Some (PDone (OVal (inr code)), w, ENone)
             | (inl b, cr) => Some (PRead (Some b) cr, w, ENone)
